@@ -4,6 +4,8 @@ package props
 
 import (
 	"fmt"
+
+	"github.com/MinterTeam/minter-go-node/coreV2/check"
 	"os"
 	"strconv"
 	"strings"
@@ -82,4 +84,13 @@ func (h *history) labelKinds(prefix string) {
 			sim.S.LabelN(prefix+"rejected/"+k, v)
 		}
 	}
+}
+
+func decodeCheck(raw []byte) (*check.Check, error) { return check.DecodeFromBytes(raw) }
+
+func trunc(s string, n int) string {
+	if len(s) > n {
+		return s[:n]
+	}
+	return s
 }
